@@ -386,7 +386,7 @@ class CacheBench(object):
             if not close(val, want):
                 probs.append("step %d: grain.%s = %s differs from a fresh grain of the current ubi: %s" % (
                     k + 1, name, np.asarray(val).tolist(), want.tolist()))
-            elif perturb is None:
+            elif perturb is None and self.E[cur] is not None:
                 bad = judge_field(fld, val, self.E[cur])
                 if bad:
                     probs.append("step %d: grain.%s: %s" % (k + 1, name, bad[0][1]))
@@ -403,6 +403,31 @@ class CacheBench(object):
             except AttributeError:
                 drift = ("no such attribute", list(occ_model))
         return probs, drift
+
+
+class NearBench(CacheBench):
+    """the same cache behaviours with a second matrix that is the first one under a 5e-6 strain ("small arbitrary
+    strains"): a cache that survives a tiny update returns values of the old lattice, 5e-6 away from the fresh ones"""
+
+    def __init__(self, rt, c1, strain=5e-6):
+        self.rt = rt
+        self.cases = {1: c1, 2: c1}
+        self.E = {1: expected(c1), 2: None}
+        u1 = np.array(self.E[1]["ubi"], float)
+        # hydrostatic part dominant: every entry changes by the same tiny relative amount (an element-wise
+        # "is it the same matrix" test with a relative tolerance cannot tell them apart), (exact zeros stay zero)
+        S = np.eye(3)
+        self.ubi = {1: u1, 2: u1 @ (np.eye(3) + strain * S)}
+        self.fresh = {}
+        for m in (1, 2):
+            for name in FIELDSEQ + ["ub", "u"]:
+                v = call(lambda: np.array(getattr(rt.grain.grain(self.ubi[m].copy()), name), float))
+                if isinstance(v, Exception):
+                    raise BenchError("grain(ubi).%s raised %r" % (name, v), c1)
+                self.fresh[m, name] = v
+        for name in ("UB", "mt", "rmt", "unitcell", "B"):
+            if close(self.fresh[1, name], self.fresh[2, name]):
+                raise common.MachineryError("near bench: the strained matrix does not change %s beyond the tolerance" % name)
 
 
 # ------------------------------------------------------------------------------------------------------
@@ -625,6 +650,7 @@ def replay_alg(chk, rt, cases, col):
 
 def run_cache(chk, rt, tier, bench, col):
     t0 = time.time()
+    near = NearBench(rt, bench.cases[1])
     drift = 0
     nb = 0
     runs = [("Lattice_cache_tr.cfg", "transitions depth 8"),
@@ -647,6 +673,8 @@ def run_cache(chk, rt, tier, bench, col):
             if h["fresh"] != 1:
                 raise common.MachineryError("pinned-code cache model returns stale data: %s" % key)
             probs, d = bench.replay(ops, h["occ"], fresh_each=(nb % 97 == 0))
+            if near is not None and any(o[0] == "set" for o in ops):
+                probs = probs + ["[second matrix = first under a 5e-6 strain] " + x for x in near.replay(ops)[0]]
             nb += 1
             drift += d is not None
             sets = [i for i, o in enumerate(ops) if o[0] == "set"]
